@@ -2,10 +2,11 @@
    Only ExtrOcamlBasic is used: bool, option, unit, list, prod, sumbool map to OCaml's;
    N, Z, positive and nat stay the extracted inductive types. *)
 Require Import ExtrOcamlBasic.
-From Verif Require Import Base.Bytes B2F.Md5 B2F.Secure Catalog.PosReport Transport.Url Msg.Body.
+From Verif Require Import Base.Bytes B2F.Md5 B2F.Secure Catalog.PosReport Transport.Url Msg.Body Mbox.Confine.
 Extraction Language OCaml.
 Extraction "model.ml"
   md5 secure_response send_handshake
   dec_to_min_dec t_of course_string posrep_body
   parse_url reg_run
-  set_body.
+  set_body
+  touched path_clean path_join.
